@@ -122,6 +122,13 @@ def chipView (c : ChipState) : ChipInfo :=
     sdram := c.sdram, sram := c.sram, rtr := c.rtr, ethUp := c.ethUp,
     ip := [c.ip0, c.ip1, c.ip2, c.ip3], ethChip := (c.ethX, c.ethY) }
 
+/-- machine specification: core `p` of the chip is a working core that is not idle -/
+def ChipState.busyCore (c : ChipState) (p : Nat) : Bool :=
+  decide (p < c.cores) &&
+    match c.states[p]? with
+    | some s => s != APPSTATE_IDLE
+    | none => false
+
 def ChipState.WF (c : ChipState) : Prop :=
   c.cores ≤ 18 ∧ c.states.length = 18 ∧ (∀ s ∈ c.states, validState s = true) ∧
   c.sdram < 4294967296 ∧ c.sram < 4294967296 ∧ c.rtr < 2048 ∧
@@ -219,7 +226,41 @@ def systemInfo (table : List ((Nat × Nat) × Nat)) (probe : Nat × Nat → Opti
   | .error e => .error e
   | .ok chips => .ok { width := maxX + 1, height := maxY + 1, chips := chips }
 
+/-- `get_system_info`: read the P2P table of the root chip, then probe every listed chip -/
+def getSystemInfo (rd : Rd) (probe : Nat × Nat → Option InfoReply) : Except String SysInfo :=
+  match p2pTable rd with
+  | .error e => .error e
+  | .ok t => systemInfo t probe
+
 def SysInfo.has (si : SysInfo) (xy : Nat × Nat) : Bool := (si.chips.lookup xy).isSome
+
+/-- `SystemInfo.__contains__` for `(x, y, link)` -/
+def SysInfo.hasLink (si : SysInfo) (x y l : Nat) : Bool :=
+  match si.chips.lookup (x, y) with
+  | some ci => ci.links.contains l
+  | none => false
+
+/-- `SystemInfo.__contains__` for `(x, y, p)` (core numbers are naturals here; a negative `p` is
+absent in the code as well) -/
+def SysInfo.hasCore (si : SysInfo) (x y p : Nat) : Bool :=
+  match si.chips.lookup (x, y) with
+  | some ci => decide (p < ci.numCores)
+  | none => false
+
+/-- `0 <= p < chip.num_cores and chip.core_states[p] == state`; `core_states[p]` raises when the
+record has fewer states than cores -/
+def ChipInfo.coreStateIs (ci : ChipInfo) (p s : Nat) : Except String Bool :=
+  if p < ci.numCores then
+    match ci.coreStates[p]? with
+    | some s' => .ok (s' == s)
+    | none => .error "IndexError"
+  else .ok false
+
+/-- `SystemInfo.__contains__` for `(x, y, p, state)` -/
+def SysInfo.hasCoreState (si : SysInfo) (x y p s : Nat) : Except String Bool :=
+  match si.chips.lookup (x, y) with
+  | some ci => ci.coreStateIs p s
+  | none => .ok false
 
 /-- `SystemInfo.dead_chips` -/
 def SysInfo.deadChips (si : SysInfo) : List (Nat × Nat) :=
@@ -811,18 +852,29 @@ def handle (op : String) (j : Json) : R Json := do
   | "system_info" =>
     let segs ← segsOfJson j
     let probe ← probeOfJson j
-    match p2pTable (rdSegs segs) with
+    match getSystemInfo (rdSegs segs) probe with
     | .error e => pure (jErr e)
-    | .ok t =>
-      match systemInfo t probe with
-      | .error e => pure (jErr e)
-      | .ok si =>
-        pure (jOk (Json.mkObj [("sysinfo", sysInfoToJson si),
-          ("dead_chips", jList (si.deadChips.map fun (x, y) => jNats [x, y])),
-          ("dead_links", jList (si.deadLinks.map fun (x, y, l) => jNats [x, y, l])),
-          ("links", jList (si.liveLinks.map fun (x, y, l) => jNats [x, y, l])),
-          ("cores", jList (si.cores.map fun (x, y, p, s) => jNats [x, y, p, s])),
-          ("target_lengths", jList ((targetLengths si).map fun (xy, n) => jNats [xy.1, xy.2, n]))]))
+    | .ok si =>
+      pure (jOk (Json.mkObj [("sysinfo", sysInfoToJson si),
+        ("dead_chips", jList (si.deadChips.map fun (x, y) => jNats [x, y])),
+        ("dead_links", jList (si.deadLinks.map fun (x, y, l) => jNats [x, y, l])),
+        ("links", jList (si.liveLinks.map fun (x, y, l) => jNats [x, y, l])),
+        ("cores", jList (si.cores.map fun (x, y, p, s) => jNats [x, y, p, s])),
+        ("target_lengths", jList ((targetLengths si).map fun (xy, n) => jNats [xy.1, xy.2, n]))]))
+  | "contains" =>
+    -- `SystemInfo.__contains__`: queries [kind, x, y, a, b] with kind 0 chip, 1 link a, 2 core a, 3 core a in state b
+    let si ← sysInfoOfJson (← field j "sysinfo")
+    let qs ← (← arr j "queries").mapM fun q => do (← asArr q).mapM asNat
+    pure (jList (qs.map fun q =>
+      match q with
+      | [0, x, y, _, _] => Json.bool (si.has (x, y))
+      | [1, x, y, l, _] => Json.bool (si.hasLink x y l)
+      | [2, x, y, p, _] => Json.bool (si.hasCore x y p)
+      | [3, x, y, p, st] =>
+        match si.hasCoreState x y p st with
+        | .ok b => Json.bool b
+        | .error e => Json.str e
+      | _ => Json.null))
   | "iobuf" => pure (res jNats (iobufBytes (rdSegs (← segsOfJson j)) (← nat j "p") (← nat j "fuel")))
   | "status" => pure (res statusToJson (processorStatus (rdSegs (← segsOfJson j)) (← nat j "p")))
   | "diag" => pure (res jNats (routerDiagnostics (rdSegs (← segsOfJson j))))
